@@ -25,30 +25,31 @@ pub struct Case {
     pub fresh: u8,
 }
 
-/// Child process: `threads` threads spin until all are ready, then each makes `calls` calls; prints one path per line.
-pub fn first_calls_child(threads: usize, calls: usize, part: &str) -> i32 {
+/// Child process: `threads` threads spin until all are ready, then each makes `calls` calls with its name part
+/// (thread t uses part t mod #parts); prints "<part index>\t<path>" per call.
+pub fn first_calls_child(threads: usize, calls: usize, parts: &[String]) -> i32 {
     use std::sync::atomic::{AtomicUsize, Ordering};
     let ready = Arc::new(AtomicUsize::new(0));
     let handles: Vec<_> = (0..threads)
-        .map(|_| {
+        .map(|t| {
             let ready = ready.clone();
-            let part = part.to_string();
+            let k = t % parts.len().max(1);
+            let part = parts.get(k).cloned().unwrap_or_default();
             std::thread::spawn(move || {
                 ready.fetch_add(1, Ordering::SeqCst);
                 while ready.load(Ordering::SeqCst) < threads {
                     std::hint::spin_loop();
                 }
-                (0..calls).map(|_| temp_file_name(&part)).collect::<Vec<_>>()
+                (k, (0..calls).map(|_| temp_file_name(&part)).collect::<Vec<_>>())
             })
         })
         .collect();
     let mut out = String::new();
     for h in handles {
         match h.join() {
-            Ok(paths) => {
+            Ok((k, paths)) => {
                 for p in paths {
-                    out.push_str(&p.to_string_lossy());
-                    out.push('\n');
+                    out.push_str(&format!("{}\t{}\n", k, p.to_string_lossy()));
                 }
             }
             Err(_) => return 3,
@@ -59,9 +60,10 @@ pub fn first_calls_child(threads: usize, calls: usize, part: &str) -> i32 {
 }
 
 /// Run one fresh process and check its paths; returns the number of paths.
-fn fresh_process(threads: usize, calls: usize, part: &str) -> Result<u64, Fail> {
+fn fresh_process(threads: usize, calls: usize, parts: &[String]) -> Result<u64, Fail> {
     let exe = std::env::current_exe().map_err(|e| Fail::new("infra", format!("current_exe: {}", e)))?;
-    let outp = std::process::Command::new(exe).arg("c20-first").arg(threads.to_string()).arg(calls.to_string()).arg(part).output().map_err(|e| Fail::new("infra", format!("cannot start the child process: {}", e)))?;
+    let joined = parts.join("\u{1f}");
+    let outp = std::process::Command::new(exe).arg("c20-first").arg(threads.to_string()).arg(calls.to_string()).arg(&joined).output().map_err(|e| Fail::new("infra", format!("cannot start the child process: {}", e)))?;
     if !outp.status.success() {
         return Err(Fail::new("infra", format!("the child process failed: {:?}", outp.status)));
     }
@@ -69,11 +71,16 @@ fn fresh_process(threads: usize, calls: usize, part: &str) -> Result<u64, Fail> 
     let mut seen: HashSet<&str> = HashSet::new();
     let mut count = 0u64;
     for line in text.lines() {
+        let (k, path) = match line.split_once('\t') {
+            Some((k, p)) => (k.parse::<usize>().unwrap_or(0), p),
+            None => return Err(Fail::new("infra", format!("unexpected line from the child process: {:?}", line))),
+        };
         count += 1;
-        if !seen.insert(line) {
-            return Err(Fail::new("duplicate-path", format!("temp_file_name returned {} twice among the first calls of a fresh process ({} threads x {} calls)", line, threads, calls)));
+        if !seen.insert(path) {
+            return Err(Fail::new("duplicate-path", format!("temp_file_name returned {} twice among the first calls of a fresh process ({} threads x {} calls, name parts {:?})", path, threads, calls, parts)));
         }
-        let name = line.rsplit('/').next().unwrap_or(line);
+        let name = path.rsplit('/').next().unwrap_or(path);
+        let part = parts.get(k).map(|s| s.as_str()).unwrap_or("");
         if !name.contains(part) {
             return Err(Fail::new("name-part-missing", format!("the file name {:?} does not contain the caller's name part {:?}", name, part)));
         }
@@ -82,6 +89,24 @@ fn fresh_process(threads: usize, calls: usize, part: &str) -> Result<u64, Fail> 
         return Err(Fail::new("infra", format!("the child process printed {} paths instead of {}", count, threads * calls)));
     }
     Ok(count)
+}
+
+/// If the file name of `p` ends in decimal digits, the paths with that number increased by 1, 2, 3 and 9.
+fn following_names(p: &std::path::Path) -> Vec<std::path::PathBuf> {
+    let name = match p.file_name().and_then(|n| n.to_str()) {
+        Some(n) => n,
+        None => return Vec::new(),
+    };
+    let digits = name.chars().rev().take_while(|c| c.is_ascii_digit()).count();
+    if digits == 0 || digits > 15 {
+        return Vec::new();
+    }
+    let (head, tail) = name.split_at(name.len() - digits);
+    let k: u64 = match tail.parse() {
+        Ok(k) => k,
+        Err(_) => return Vec::new(),
+    };
+    [1u64, 2, 3, 9].iter().map(|d| p.with_file_name(format!("{}{}", head, k + d))).collect()
 }
 
 /// every path handed out in this process so far (two independent 64-bit digests)
@@ -98,7 +123,7 @@ fn digest(p: &std::path::Path) -> (u64, u64) {
 impl Prop for C20 {
     type Case = Case;
     const ID: &'static str = "C20";
-    const RULE: &'static str = "generated configurations: 2..64 threads (more than the 16 cores included) x 1..5000 calls per thread, released from a barrier or not, name parts empty / long / non-ASCII / with dots and spaces / shared between threads, a few single-threaded calls before and after each burst; 16 such rounds run concurrently in the process; in 30% of the cases 1..4 fresh child processes are started whose FIRST calls are made by 2..16 spinning threads at once (their paths are checked in the same way). Oracle over the whole history of the process: no path is ever returned twice (a process-wide set of all paths returned so far), every path's file name contains the caller's name part. Schedules are sampled by the OS scheduler, not enumerated. Non-trivial: >= 2 threads making >= 100 calls each in one burst; distinct by configuration.";
+    const RULE: &'static str = "generated configurations: 2..64 threads (more than the 16 cores included) x 1..5000 calls per thread, released from a barrier or not, name parts empty / long / non-ASCII / with dots and spaces / differing only by trailing digits / shared between threads, sometimes with files planted under the next few names, a few single-threaded calls before and after each burst; 16 such rounds run concurrently in the process; in 30% of the cases 1..4 fresh child processes are started whose FIRST calls are made by 2..16 spinning threads at once (their paths are checked in the same way). Oracle over the whole history of the process: no path is ever returned twice (a process-wide set of all paths returned so far), every path's file name contains the caller's name part. Schedules are sampled by the OS scheduler, not enumerated. Non-trivial: >= 2 threads making >= 100 calls each in one burst; distinct by configuration.";
 
     fn cases(tier: Tier) -> u32 {
         tier.pick(320, 1200)
@@ -118,7 +143,12 @@ impl Prop for C20 {
         let threads = prop_oneof![1 => 2u8..8, 5 => 8u8..=24, 2 => 24u8..=64];
         let calls = prop_oneof![1 => 1u16..100, 6 => 500u16..2500, 1 => 2500u16..5000];
         let fresh = prop_oneof![7 => Just(0u8), 3 => 1u8..5];
-        (threads, calls, proptest::collection::vec(part, 1..4), proptest::bool::weighted(0.8), 0u8..4, fresh).prop_map(|(threads, calls, parts, barrier, singles, fresh)| Case { threads, calls, parts, barrier, singles, fresh }).boxed()
+        let parts = prop_oneof![
+            8 => proptest::collection::vec(part, 1..4),
+            // name parts that differ only by trailing digits or separators: the rest of the file name must keep them apart
+            2 => "[a-z]{1,3}".prop_map(|b| vec![b.clone(), format!("{}1", b), format!("{}10", b), format!("{}_", b), format!("{}_1", b)]),
+        ];
+        (threads, calls, parts, proptest::bool::weighted(0.8), 0u8..4, fresh).prop_map(|(threads, calls, parts, barrier, singles, fresh)| Case { threads, calls, parts, barrier, singles, fresh }).boxed()
     }
 
     fn run(case: &Case) -> CaseResult {
@@ -129,6 +159,18 @@ impl Prop for C20 {
         for k in 0..case.singles {
             let part = &case.parts[k as usize % case.parts.len()];
             all.push((part.clone(), temp_file_name(part)));
+        }
+        // files that already exist under names the process is about to hand out must not make two calls agree
+        let mut planted: Vec<std::path::PathBuf> = Vec::new();
+        if case.singles > 0 {
+            if let Some((_, p)) = all.last() {
+                for q in following_names(p) {
+                    if !q.exists() && std::fs::write(&q, b"").is_ok() {
+                        planted.push(q);
+                    }
+                }
+            }
+            rep.class_if(!planted.is_empty(), "pre-existing-files-with-upcoming-names");
         }
         let barrier = Arc::new(Barrier::new(threads));
         let handles: Vec<_> = (0..threads)
@@ -158,6 +200,9 @@ impl Prop for C20 {
             let part = &case.parts[k as usize % case.parts.len()];
             all.push((part.clone(), temp_file_name(part)));
         }
+        for q in &planted {
+            let _ = std::fs::remove_file(q);
+        }
         // invariant over the history
         let mut local: HashSet<&std::path::Path> = HashSet::with_capacity(all.len());
         for (part, p) in &all {
@@ -180,13 +225,13 @@ impl Prop for C20 {
         rep.evals = all.len() as u64;
         // fresh processes: the first calls of a process are made by several threads at once
         for k in 0..case.fresh as usize {
-            let part = &case.parts[k % case.parts.len()];
             let t = 2 + (threads + 3 * k) % 15;
-            let c = 1 + (calls + 7 * k) % 40;
-            rep.evals += fresh_process(t, c, part)?;
+            let c = 1 + (calls + 7 * k) % 300;
+            rep.evals += fresh_process(t, c, &case.parts)?;
             rep.class("fresh-process(first calls concurrent)");
         }
         rep.class_if(case.parts.iter().any(|p| p.contains('.')), "name-part-with-dots");
+        rep.class_if(case.parts.len() == 5 && case.parts[1].ends_with('1'), "name-parts-differing-by-trailing-digits");
         rep.class(match threads {
             2..=7 => "threads:2-7",
             8..=16 => "threads:8-16",
@@ -207,7 +252,7 @@ impl Prop for C20 {
         if total == 0 || heavy * 10 < total * 6 {
             return Err(format!("only {} of {} rounds are heavy bursts (need >= 60%)", heavy, total));
         }
-        for c in ["fresh-process(first calls concurrent)", "name-part-with-dots"] {
+        for c in ["fresh-process(first calls concurrent)", "name-part-with-dots", "name-parts-differing-by-trailing-digits", "pre-existing-files-with-upcoming-names"] {
             if classes.get(c).copied().unwrap_or(0) == 0 {
                 return Err(format!("no generated case reached class {}", c));
             }
